@@ -2,7 +2,7 @@
 import ast
 
 from py2lean_types import (Unsupported, Impure, TInt, TBool, TStr, TNone, TRange, TErased, TList, TOpt, TTuple,
-                           TDict, TObj, TAbs, TExc, TUnion, TVar, THet, TBuilder, TEffect, INT, BOOL, STR, NONE, RANGE, ERASED,
+                           TDict, TObj, TAbs, TExc, TUnion, TVar, THet, TBuilder, TEffect, TMaybe, INT, BOOL, STR, NONE, RANGE, ERASED,
                            resolve, unify, join, coerce, proj, iter_elem)
 from py2lean_expr import src, indent, TyRef, lstr
 
@@ -171,6 +171,15 @@ class CallMixin:
             m = getattr(self, "b_" + f.id, None)
             if m is not None:
                 return m(e, env, k)
+            if f.id in env and isinstance(resolve(env[f.id][1]), TMaybe) \
+                    and isinstance(resolve(resolve(env[f.id][1]).elem), TObj):
+                # an object assigned on some paths only: reading it may be UnboundLocalError
+                def with_obj(oc, ot):
+                    fn = self.reg.method(self.reg.classes[resolve(ot).cls], "__call__")
+                    if fn is None:
+                        raise Unsupported("__call__ of {} is not translated".format(resolve(ot).cls))
+                    return self.call_function(fn, oc, e, env, k)
+                return self.e_Name(f, env, with_obj)
             if f.id in env and isinstance(resolve(env[f.id][1]), TObj):     # obj(…) is obj.__call__(…)
                 oc, ot = env[f.id]
                 fn = self.reg.method(self.reg.classes[resolve(ot).cls], "__call__")
@@ -376,6 +385,12 @@ class CallMixin:
                 return self.as_list(l, tl, lambda ll, el: self.as_int(n, tn, lambda nv: k(
                     "(productRep {} ({}).toNat)".format(ll, nv), TList(TList(el)))))
             return self.exprs([e.args[0], kws["repeat"]], env, fin)
+        if not kws and len(e.args) == 2 and not any(isinstance(a, ast.Starred) for a in e.args):
+            def fin2(vs):
+                (a, ta), (b, tb) = vs
+                return self.as_list(a, ta, lambda la, ea: self.as_list(b, tb, lambda lb, eb: k(
+                    "(Py.product2 {} {})".format(la, lb), TList(TTuple([ea, eb])))))
+            return self.exprs(list(e.args), env, fin2)
         if not kws and len(e.args) == 1 and isinstance(e.args[0], ast.Starred):
             def fin1(c, t):
                 t = resolve(t)
@@ -491,6 +506,13 @@ class CallMixin:
             except ValueError:
                 return "(Except.error Err.valueError)"
         # pass our own observer of the same label through
+        if isinstance(call_args, tuple) and call_args[0] == "star":
+            # the starred sequence, in our own names
+            sidx = names.index(call_args[1]) if call_args[1] in names else None
+            snode = [a for i, a in items if i == sidx]
+            if not snode or not isinstance(snode[0], ast.Name):
+                raise Unsupported("label check over a sequence that is not a plain argument")
+            call_args = ("star", snode[0].id)
         own = self.observer_param(kind, pname if not given else src(given[0]), call_args)
         return own
 
